@@ -22,6 +22,8 @@ theorem addToGraph_shape (w : World) (g : List Entry) (o : Nat) {w0 : World} (h 
     intro w L h; exact ⟨h.1, fun j => h.2 j⟩
   have warn_shape : ∀ (w : World) (n : Nat), Shape w w0 → Shape { w with warnings := n } w0 := by
     intro w n h; exact ⟨h.1, fun j => h.2 j⟩
+  have undef_shape : ∀ (w : World) (n : Nat), Shape w w0 → Shape { w with warnings := n, undef := true } w0 := by
+    intro w n h; exact ⟨h.1, fun j => h.2 j⟩
   unfold World.addToGraph
   simp only
   split
@@ -37,8 +39,8 @@ theorem addToGraph_shape (w : World) (g : List Entry) (o : Nat) {w0 : World} (h 
         · exact (newLink_shape _ _ (warn_shape _ _ h)).setLink _ _
         · exact (newLink_shape _ _ (warn_shape _ _ h)).setLink _ _
     · split
-      · exact (newLink_shape _ _ (warn_shape _ _ h)).setLink _ _
-      · exact (newLink_shape _ _ (warn_shape _ _ h)).setLink _ _
+      · exact (newLink_shape _ _ (undef_shape _ _ h)).setLink _ _
+      · exact (newLink_shape _ _ (undef_shape _ _ h)).setLink _ _
 
 /-- rebuilding a graph from a list of operations lists exactly those operations (plus what was there). -/
 theorem rebuild_perm (w0 : World) : ∀ (ops : List Nat) (w : World) (g : List Entry), Shape w w0 →
